@@ -216,6 +216,25 @@ class LocationAction(object):
             return True
         return False
 
+    def continues(self, previous: 'LocationAction') -> bool:
+        """
+        Continue the rate limiting of the same action in the previous config.
+
+        A new config from the service is a new set of objects, also for the tracepoints that have not changed. Such a
+        tracepoint stays installed, so its fire count and last fire time have to go on - else every change to any other
+        tracepoint would hand it a fresh budget.
+
+        :param previous: the action of the previous config
+        :return: True, if this is the same action (tracepoint id, type and limits) and we have taken over its state
+        """
+        if self.id != previous.id or self.action_type != previous.action_type \
+                or self.condition != previous.condition \
+                or self.__config.get(FIRE_COUNT) != previous.__config.get(FIRE_COUNT) \
+                or self.__config.get(FIRE_PERIOD) != previous.__config.get(FIRE_PERIOD):
+            return False
+        self.__stats = previous.__stats
+        return True
+
     def with_location(self, location: 'Location') -> 'LocationAction':
         """
         Attach the location to this action.
